@@ -178,9 +178,50 @@ pub fn items(include_b: bool) -> Vec<Item> {
         // C15-only shapes carry read-only sets that reject nothing interesting here; keep them, they are cheap
         let mut events = vec![c.event.clone()];
         events.extend(corpus::extra_events(&c));
+        // event variants (same shape, different leaves): give input-dependent shared state (memos, caches,
+        // scratch buffers) something to get wrong when the same program sees another event
+        if events.len() == 1 && c.event.value.as_object().is_some_and(|o| !o.is_empty()) {
+            for mode in 0..2 {
+                let v = vary(&c.event.value, mode);
+                if v != c.event.value {
+                    events.push(EventSpec { value: v, metadata: c.event.metadata.clone(), secrets: c.event.secrets.clone() });
+                }
+            }
+        }
         out.push(Item { case: c, events });
     }
     out
+}
+
+/// Deterministic variant of a JSON event: mode 0 reverses strings and bumps numbers (lengths preserved),
+/// mode 1 swaps letter case and reverses arrays.
+fn vary(v: &serde_json::Value, mode: u32) -> serde_json::Value {
+    use serde_json::Value as J;
+    match v {
+        J::String(s) => {
+            if mode == 0 {
+                J::String(s.chars().rev().collect())
+            } else {
+                J::String(s.chars().map(|c| if c.is_lowercase() { c.to_ascii_uppercase() } else { c.to_ascii_lowercase() }).collect())
+            }
+        }
+        J::Number(n) => {
+            if mode == 0 {
+                if let Some(i) = n.as_i64() { J::from(i.wrapping_add(1)) } else { v.clone() }
+            } else {
+                v.clone()
+            }
+        }
+        J::Array(a) => {
+            let mut out: Vec<J> = a.iter().map(|x| vary(x, mode)).collect();
+            if mode == 1 {
+                out.reverse();
+            }
+            J::Array(out)
+        }
+        J::Object(o) => J::Object(o.iter().map(|(k, x)| (k.clone(), vary(x, mode))).collect()),
+        other => other.clone(),
+    }
 }
 
 pub fn golden_session(item: &Item, ev: usize) -> SessionSpec {
@@ -385,7 +426,21 @@ pub fn gen_session(r: &mut Rng, seed: u64, items: &[Item], hot: &[usize], max_no
     let mut worlds = vec![];
     let mut used = vec![];
     // a session tends to revisit a small pool of items so that history (global residue) has a chance to matter
-    let pool: Vec<usize> = (0..r.range(1, 4)).map(|_| pick_item(r, items, hot)).collect();
+    // ... and neighbours in the corpus order are other examples of the same function (same code, other arguments)
+    let mut pool: Vec<usize> = vec![];
+    for _ in 0..r.range(1, 3) {
+        let base = pick_item(r, items, hot);
+        pool.push(base);
+        if r.chance(0.6) {
+            for d in 1..=r.range(1, 3) {
+                if r.chance(0.5) && base + d < items.len() {
+                    pool.push(base + d);
+                } else if base >= d {
+                    pool.push(base - d);
+                }
+            }
+        }
+    }
     for wi in 0..n_worlds {
         let n_nodes = r.range(1, max_nodes);
         let n_progs = if r.chance(0.5) { 1 } else { r.range(1, 3) };
